@@ -291,7 +291,15 @@ func (s *Store) Close() error {
 
 	cerr := s.Err()
 
-	err := s.index.Close()
+	// Flush the primary before the index, as commit does. Closing the index
+	// flushes it, and the index on disk must never refer to primary records
+	// that are not on disk yet.
+	_, err := s.index.Primary.Flush()
+	if err != nil {
+		cerr = err
+	}
+
+	err = s.index.Close()
 	if err != nil {
 		cerr = err
 	}
